@@ -160,7 +160,8 @@ func mpEncs(v *V, m mode) encSet {
 				if isMap {
 					body = append(body, mpStr([]byte(v.Keys()[i]), false)[0].B...)
 				}
-				body = append(body, 0x00)
+				// the shortest form of the element (0x00 for the zeros of the grid)
+				body = append(body, mpEncs(el[i], m).At(0).B...)
 			}
 			return newProd([]encSet{one(body, fmt.Sprintf("%dx", len(el)))}, wraps)
 		}
@@ -337,7 +338,8 @@ func cborEncs(v *V, m mode) encSet {
 					k := []byte(v.Keys()[i])
 					body = append(body, concat(cborHeads(3, uint64(len(k)))[0].B, k)...)
 				}
-				body = append(body, 0x00)
+				// the shortest form of the element (0x00 for the zeros of the grid)
+				body = append(body, cborEncs(el[i], m).At(0).B...)
 			}
 			return newProd([]encSet{one(body, fmt.Sprintf("%dx", len(el)))}, wraps)
 		}
